@@ -66,7 +66,7 @@ func alphaParamsQ(cfg muxCfg) []sym {
 	t := cfg.leading()
 	a := alphaParams(t)
 	// (H264 only: the muxer drops such units explicitly; what becomes of them for H265 is not specified)
-	if k := cfg.Tracks[t].Kind; k == "h264" || k == "h264b" {
+	if k := cfg.Tracks[t].Kind; isH264(k) {
 		a = append(a, sym{T: t, D: "f", K: "Q"})
 	}
 	return a
@@ -175,6 +175,8 @@ func e1BaseGrid(tier string) []e1Grid {
 		{mcfg("mpegts", false, 3, "h264b"), "reorder"},
 		{mcfg("fmp4", false, 3, "h264b"), "reorder"},
 		{mcfg("ll", false, 7, "h264b"), "reorder"},
+		{mcfg("mpegts", false, 3, "h264k"), "timing"},
+		{mcfg("mpegts", false, 3, "h264k", "aac44"), "inter"},
 		{mcfg("fmp4", false, 3, "h264", "aacsbr"), "inter"},
 		{mcfg("ll", false, 7, "aacsbr"), "audio"},
 		{mcfg("fmp4", false, 3, "h265b"), "reorder"},
